@@ -1518,6 +1518,16 @@ class Evaluator:
     def do_call(self, st, act, t, w):
         f = self.operand(st, act, t["func"])
         args = [self.operand(st, act, a) for a in t["args"]]
+        for _ in range(3):
+            if f[0] == "ref":
+                f = self.load(st, f[1])       # a &fn / &closure value
+        if f[0] == "closure" and f[1] in self.prog.fns and t["target"] is not None:
+            # a non-capturing closure coerced to a function pointer (e.g. an entry of a table of handlers)
+            cfn = self.prog.fns[f[1]]
+            selfarg = f if cfn["body"]["locals"][1]["ty"]["k"] != "ref" else ("ref", ("val", f, ()), False)
+            self.stats["inlined"].add(cfn["name"])
+            self.push(st, cfn, cfn["body"], [selfarg] + args, t["dest"], t["target"])
+            return [st]
         if f[0] != "fn":
             raise Unsupported("indirect call at %s" % w)
         fnj = self.fnrefs[f[1]]
